@@ -2,7 +2,7 @@
 From Coq Require Import String.
 From Coq Require Import ZArith NArith List Bool Lia Arith.
 From SV Require Import lib.Core lib.CoreS lib.CoreL lib.Bytecode lib.BytecodeS lib.BytecodeL c01.Proofs_C01 c01.Properties_C01.
-From SV Require c01.Proofs_C01_set c01.Proofs_C01_setl.
+From SV Require c01.Proofs_C01_set c01.Proofs_C01_setl c01.Proofs_C01_conv.
 Import ListNotations.
 Open Scope list_scope.
 
@@ -172,6 +172,52 @@ Check (C01_simulation_setlocal :
     | LErr k => exists s', S.star limit (S.mkVM C pc (below ++ slots) fs MG H) s' /\ S.vm_step limit s' = S.SErr k
     end).
 
+Check (C01_program_simulation_setlocal :
+  forall limit tco n ds main res,
+  lrun_program n ds main = Some res -> n <= limit -> L.wf_program ds main = true ->
+  match res with
+  | LVal v _ _ => exists k mv s', Proofs_C01_setl.vrel tco v mv /\ L.vm_program limit tco false k ds main = S.RDone mv s'
+  | LErr ek => exists k, L.vm_program limit tco false k ds main = S.RErr ek
+  end).
+
+Check (C01_program_render_setlocal :
+  forall limit tco n ds main res,
+  lrun_program n ds main = Some res -> n <= limit -> L.wf_program ds main = true ->
+  exists k, S.render_run (L.vm_program limit tco false k ds main) = render_lresult (Some res)).
+
+Check (C01_assign_convert_correct :
+  forall n rs e st res, seval n rs e st = Some res ->
+  forall W bx rb stb,
+    Proofs_C01_conv.E W bx rs rb -> Proofs_C01_conv.inv bx rs e -> Proofs_C01_conv.clean e = true ->
+    Proofs_C01_conv.StoreRel W (s_store st) (b_store stb) -> Proofs_C01_conv.GlobRel W (s_glob st) (b_glob stb) ->
+    exists m,
+      match res with
+      | SVal v st' => exists W' bv stb', Proofs_C01_conv.ext W W' /\
+          beval m rb (aconv bx e) stb = Some (BVal bv stb') /\ Proofs_C01_conv.V W' v bv /\
+          Proofs_C01_conv.StoreRel W' (s_store st') (b_store stb') /\
+          Proofs_C01_conv.GlobRel W' (s_glob st') (b_glob stb')
+      | CoreS.SErr k => beval m rb (aconv bx e) stb = Some (BErr k)
+      end).
+
+Check (C01_assign_convert_program :
+  forall n ds main sres,
+  srun_program n ds main = Some sres -> Proofs_C01_conv.clean_prog ds main = true ->
+  exists m bres, brun_program m (S.conv_defs ds) (assign_convert main) = Some bres /\
+                 render_bresult (Some bres) = render_sresult (Some sres) /\
+                 match sres, bres with
+                 | SVal v _, BVal bv _ => exists W, Proofs_C01_conv.V W v bv
+                 | CoreS.SErr k, BErr k' => k = k'
+                 | _, _ => False
+                 end).
+
+Check (C01_end_to_end_set :
+  forall forms ds ms n sres,
+  ssplit_unit forms = Some (ds, ms) -> Proofs_C01_conv.clean_prog ds (sseq_of ms) = true ->
+  srun_program n ds (sseq_of ms) = Some sres ->
+  S.unit_render_ref n forms = render_sresult (Some sres) /\
+  exists m, forall limit tco, m <= limit ->
+    exists k, S.unit_render_vm limit tco false k forms = render_sresult (Some sres)).
+
 Print Assumptions C01_simulation_L0.
 Print Assumptions C01_simulation_tail.
 Print Assumptions C01_program_simulation.
@@ -187,3 +233,8 @@ Print Assumptions C01_program_simulation_set.
 Print Assumptions C01_program_render_set.
 Print Assumptions C01_set_returns_old.
 Print Assumptions C01_simulation_setlocal.
+Print Assumptions C01_program_simulation_setlocal.
+Print Assumptions C01_program_render_setlocal.
+Print Assumptions C01_assign_convert_correct.
+Print Assumptions C01_assign_convert_program.
+Print Assumptions C01_end_to_end_set.
